@@ -35,7 +35,7 @@ def harness_overlay(native=False):
     return ov
 
 
-DEPTH_SCALE_RE = r'rjson\.(skipValue|skipValueFast|vRefValueEnd)$|ValueReader\)\.Handle(Array|Object)Value$'
+DEPTH_SCALE_RE = r'rjson\.(skipValue|skipValueFast|vRefValueEnd|handleArrayValues|handleObjectValues)$|ValueReader\)\.Handle(Array|Object)Value$'
 
 
 def build_program(workdir, scale_depth=None):
@@ -117,6 +117,7 @@ class Session:
         h[RJSON + '.vAssert'] = self._assert
         h[RJSON + '.vReach'] = self._reach
         h[RJSON + '.vNumValue'] = self._numvalue
+        h[RJSON + '.vFloatSame'] = self._floatsame
         h[RJSON + '.vCostBytes'] = lambda ex, st, fr, ins, a: st.heap[ex.cost_oid][1][0]
         h[RJSON + '.vCostReset'] = self._costreset
         h[RJSON + '.vAssertCost'] = self._assert_cost
@@ -216,6 +217,20 @@ class Session:
         else:
             st.flags = st.flags - {('watch', '')}
         return None
+
+    def _floatsame(self, ex, st, fr, ins, args):
+        """bit-identical floats. Uninterpreted literal values are equal iff they are the same literal;
+        anything the encoding cannot relate is answered 'not the same' and marked inexact, so that it
+        becomes a candidate which only the native replay can confirm"""
+        a, b = args[0][1], args[1][1]
+        if a.__class__ is tuple and b.__class__ is tuple and a[0] == 'NUM' and b[0] == 'NUM':
+            return ex.bytes_eq(a[1], b[1])
+        if a.__class__ is int and b.__class__ is int:
+            return a == b
+        if a.__class__ is Term and b.__class__ is Term or (a.__class__ in (int, Term) and b.__class__ in (int, Term)):
+            return ex.store.mk('eq', 0, a, b)
+        st.inexact = True
+        return False
 
     def _costreset(self, ex, st, fr, ins, args):
         st.heap[ex.cost_oid] = ('A', (0, ('U', ())))
